@@ -3,7 +3,7 @@
    "auto" fields are the explicit optimum calls on the setup built so far. *)
 From Coq Require Import Reals QArith Qreals Lra Lia ZArith String List Bool.
 From SpdVerif Require Import Base.Rx Base.CfgNumOps Model.NumInst Spec.ConfigSpec Gen.ConfigTables Spec.ConfigUnits
-  Model.ConfigTypes Model.Config Gen.ConfigConv Proofs.C16_round.
+  Model.ConfigTypes Model.Config Gen.ConfigConv Gen.ConfigSites Proofs.C16_round Proofs.Cfg_flags_tac.
 Import ListNotations.
 Local Open Scope R_scope.
 
@@ -127,10 +127,10 @@ Section Auto.
     unfold finish_spdc. intros H. inversion H. subst s nf. clear H.
     cbn [s_crystal s_signal s_pump s_idler s_pp s_zs s_zi].
     repeat split.
-    - revert Ht. unfold theta_step. rewrite H. cbn [is_auto]. destruct (is_pol_off pp); [| discriminate].
+    - revert Ht. unfold theta_step. rewrite H. cbn [is_auto]. destruct (is_pol_off pp); [| discriminate]. flag_cases; try discriminate.
       destruct (optimum_theta o K (cfg_cs0 o c) signal (cfg_pump o c)) as [th | |] eqn:Hth; cbn [bind]; try discriminate.
       intros Hc. inversion Hc. subst cs. cbn [set_crystal_theta cs_theta]. reflexivity.
-    - revert Ht. unfold theta_step. rewrite H. cbn [is_auto]. destruct (is_pol_off pp); [| discriminate].
+    - revert Ht. unfold theta_step. rewrite H. cbn [is_auto]. destruct (is_pol_off pp); [| discriminate]. flag_cases; try discriminate.
       destruct (optimum_theta o K (cfg_cs0 o c) signal (cfg_pump o c)) as [th | |]; cbn [bind]; try discriminate.
       intros Hc. inversion Hc. subst cs. reflexivity.
     - intros Hna. revert Ht. unfold theta_step. destruct (cc_theta_deg (c_crystal c)); [congruence |]. cbn [is_auto].
